@@ -17,7 +17,8 @@ external parameter); path <op> constant for ==, !=, <, <=, >, >= and the six non
 parameter); is None / is not None / == None / != None; truthiness (`if path`, `if not path`); len(path) and
 len(document); `key in path`, `key not in path` (constant and parameter keys). Arrays: index -4..3 (constant and
 parameter), every slice with bounds in {omitted, -4..4}, `v in`, `v not in`, `[v1, v2] in` (subset), len, truthiness,
-equality with a list. Everything runs on SQLite WITH JSON1 and with provider.json1_available = False (py_json_* path).
+equality with a list. Queries are generator expressions (constant index / slice operations on arrays also as query text, where
+a literal -1 is a unary minus instead of a constant). Everything runs on SQLite WITH JSON1 and with provider.json1_available = False (py_json_* path).
 
 Oracle: the operation on the decoded value, typed three-valued: a missing key / index / a null is None, a
 comparison with None is unknown (row not selected; for != both answers are accepted), bool(None) is False. Where
@@ -315,7 +316,7 @@ def op_name(op):
     if k == 'proj': return 'path projected'
     if k == 'len': return 'len(path)'
     if k == 'contains': return 'key %s path' % ('not in' if op['neg'] else 'in') + (' (parameter key)' if op.get('kparam') else '')
-    p = ' (parameter)' if op.get('param') else ''
+    p = ' (parameter)' if op.get('param') else (' (text query)' if op.get('fe') == 'str' else '')
     if k == 'aindex': return 'array[i]' + p
     if k == 'aslice': return 'array[a:b]' + p
     if k == 'alen': return 'len(array)'
@@ -361,9 +362,12 @@ def array_ops():
         dom = DOMAINS[attr] + [OTHER[attr]]
         for i in range(-4, 4):
             out.append(dict(kind='aindex', attr=attr, i=i)); out.append(dict(kind='aindex', attr=attr, i=i, param=True))
+            out.append(dict(kind='aindex', attr=attr, i=i, fe='str'))
         B = [None] + list(range(-4, 5))
         for a in B:
-            for b in B: out.append(dict(kind='aslice', attr=attr, a=a, b=b))
+            for b in B:
+                out.append(dict(kind='aslice', attr=attr, a=a, b=b))
+                if a in (None, -1, 1) and b in (None, -4, -1, 2): out.append(dict(kind='aslice', attr=attr, a=a, b=b, fe='str'))
         for a in (-1, 0, 2):
             for b in (-1, 0, 2): out.append(dict(kind='aslice', attr=attr, a=a, b=b, param=True))
         out.append(dict(kind='alen', attr=attr))
@@ -427,11 +431,18 @@ def query(st, op, lo, hi):
     ent = 'Arr' if is_array_op(op) else 'Doc'
     g = dict(g, lo=lo, hi=hi)
     g[ent] = getattr(st['db'], ent)
-    if op['kind'] in VALUE_KINDS:
-        text = '(x.id, %s) for x in %s if x.id >= lo and x.id < hi' % (expr, ent)
-        with orm.db_session: return dict(orm.select(text, g, {})[:])
-    text = 'x.id for x in %s if x.id >= lo and x.id < hi and (%s)' % (ent, expr)
-    with orm.db_session: return set(orm.select(text, g, {})[:])
+    if op['kind'] in VALUE_KINDS: text = '(x.id, %s) for x in %s if x.id >= lo and x.id < hi' % (expr, ent)
+    else: text = 'x.id for x in %s if x.id >= lo and x.id < hi and (%s)' % (ent, expr)
+    with orm.db_session:
+        if op.get('fe') == 'str': q = orm.select(text, g, {})
+        else:
+            # generator front end: the code object is compiled once per text so that Pony's caches are keyed as in a program
+            code = _CODE.get(text)
+            if code is None: code = _CODE[text] = compile('(' + text + ')', '<c29>', 'eval')
+            q = orm.select(eval(code, g), g, {})
+        r = q[:]
+    return dict(r) if op['kind'] in VALUE_KINDS else set(r)
+_CODE = {}
 
 def answers(st, op, lo, hi, out, refused):
     st['n'] += 1
